@@ -6,37 +6,51 @@ import Proofs.C08ExtFam
 import Proofs.C08ExtSeq
 import Proofs.C08ExtManyLoop
 import Proofs.C09Ops
+import Proofs.StoreRecorded
 
 namespace MongoModel.Proofs.C08Ext
 open MongoModel MongoModel.Spec MongoModel.Proofs.C08Lemmas MongoModel.Proofs.C15Lemmas
 
-theorem untouched_refl (now : Int) (c : Coll) : Untouched now c c :=
-  (near_iff_untouched now c c).1 (Near.refl now c)
+theorem untouched_refl (now : Int) (c : Coll) : Untouched now c c := ⟨c.nextOid, .inl rfl⟩
 
 theorem untouched_trans (now : Int) (c c' c'' : Coll) (h : Untouched now c c')
-    (h' : Untouched now c' c'') : Untouched now c c'' :=
-  (near_iff_untouched _ _ _).1
-    (((near_iff_untouched _ _ _).2 h).trans ((near_iff_untouched _ _ _).2 h'))
+    (h' : Untouched now c' c'') : Untouched now c c'' := by
+  obtain ⟨n, rfl | ⟨c1, h1, rfl⟩⟩ := h
+  · obtain ⟨m, rfl | ⟨c2, h2, rfl⟩⟩ := h'
+    · exact ⟨m, .inl rfl⟩
+    · rw [expire_bump] at h2
+      cases h1 : expire now c with
+      | error e => simp [h1, Except.map] at h2
+      | ok c1 =>
+        simp only [h1, Except.map, Except.ok.injEq] at h2
+        subst h2
+        exact ⟨m, .inr ⟨c1, h1, rfl⟩⟩
+  · obtain ⟨m, rfl | ⟨c2, h2, rfl⟩⟩ := h'
+    · exact ⟨m, .inr ⟨c1, h1, rfl⟩⟩
+    · rw [expire_bump, expire_idem now c c1 h1] at h2
+      simp only [Except.map, Except.ok.injEq] at h2
+      subst h2
+      exact ⟨m, .inr ⟨c1, h1, rfl⟩⟩
 
 theorem untouched_observable (now : Int) (c c' : Coll) (h : Untouched now c c') :
     visible ⟨now, c'⟩ = visible ⟨now, c⟩ ∧ c'.indexes = c.indexes ∧
     c'.ttlIndexes = c.ttlIndexes ∧ c'.forceCreated = c.forceCreated ∧
     (c'.docs = c.docs ∨ ∃ c1, expire now c = .ok c1 ∧ c'.docs = c1.docs) := by
-  have hn := (near_iff_untouched now c c').2 h
+  have hn := untouched_near now c c' h
   refine ⟨hn.visible, hn.indexes.1, hn.indexes.2, ?_, ?_⟩
-  · rcases hn with ⟨n, rfl⟩ | ⟨n, c1, h1, rfl⟩
+  · obtain ⟨n, rfl | ⟨c1, h1, rfl⟩⟩ := h
     · rfl
     · exact (expire_fields now c c1 h1).2.2.1
-  · rcases hn with ⟨n, rfl⟩ | ⟨n, c1, h1, rfl⟩
+  · obtain ⟨n, rfl | ⟨c1, h1, rfl⟩⟩ := h
     · exact .inl rfl
     · exact .inr ⟨c1, h1, rfl⟩
 
-theorem fam_failed_partial (cfg : Cfg) (now : Int) (c : Coll) (op : Val) (hop : famOp op = true)
+/-- the `Near` form of `fam_failed_partial`: no hypothesis on the collection -/
+theorem fam_failed_near (cfg : Cfg) (now : Int) (c : Coll) (op : Val) (hop : famOp op = true)
     (he : (stepX cfg now c op).2.isErr = true) :
-    Untouched now c (stepX cfg now c op).1 ∨
+    Near now c (stepX cfg now c op).1 ∨
     (famAfter op = true ∧ (stepX cfg now c (famBefore op)).2.isErr = false ∧
-      Untouched now (stepX cfg now c (famBefore op)).1 (stepX cfg now c op).1) := by
-  simp only [← near_iff_untouched]
+      Near now (stepX cfg now c (famBefore op)).1 (stepX cfg now c op).1) := by
   unfold famOp at hop
   split at hop
   · rename_i f u proj sortV up after
@@ -66,10 +80,21 @@ theorem fam_failed_partial (cfg : Cfg) (now : Int) (c : Coll) (op : Val) (hop : 
     · cases h
   · cases hop
 
-theorem fam_failed_noop (cfg : Cfg) (now : Int) (c : Coll) (op : Val) (hop : famOp op = true)
-    (ha : famAfter op = false) (he : (stepX cfg now c op).2.isErr = true) :
+theorem fam_failed_partial (cfg : Cfg) (now : Int) (c : Coll) (op : Val) (hr : c.Recorded)
+    (hop : famOp op = true) (he : (stepX cfg now c op).2.isErr = true) :
+    Untouched now c (stepX cfg now c op).1 ∨
+    (famAfter op = true ∧ (stepX cfg now c (famBefore op)).2.isErr = false ∧
+      Untouched now (stepX cfg now c (famBefore op)).1 (stepX cfg now c op).1) := by
+  rcases fam_failed_near cfg now c op hop he with h | ⟨h1, h2, h3⟩
+  · exact .inl (near_untouched now c _ hr h)
+  · exact .inr ⟨h1, h2, near_untouched now _ _
+      (MongoModel.Proofs.Recorded.recorded_stepX cfg now c _ hr) h3⟩
+
+theorem fam_failed_noop (cfg : Cfg) (now : Int) (c : Coll) (op : Val) (hr : c.Recorded)
+    (hop : famOp op = true) (ha : famAfter op = false)
+    (he : (stepX cfg now c op).2.isErr = true) :
     Untouched now c (stepX cfg now c op).1 := by
-  rcases fam_failed_partial cfg now c op hop he with h | ⟨h, _⟩
+  rcases fam_failed_partial cfg now c op hr hop he with h | ⟨h, _⟩
   · exact h
   · rw [ha] at h; cases h
 
@@ -89,8 +114,9 @@ theorem fam_failed_history_noop (cfg : Cfg) (s : St) (op : Val) (hop : famOp op 
     (stepXS cfg s op).1.c.indexes = s.c.indexes ∧
     (stepXS cfg s op).1.c.ttlIndexes = s.c.ttlIndexes := by
   rw [stepXS_fam cfg s op hop] at he ⊢
-  have h := untouched_observable s.now s.c _ (fam_failed_noop cfg s.now s.c op hop ha he)
-  exact ⟨h.1, h.2.1, h.2.2.1⟩
+  rcases fam_failed_near cfg s.now s.c op hop he with h | ⟨h, _⟩
+  · exact ⟨h.visible, h.indexes.1, h.indexes.2⟩
+  · rw [ha] at h; cases h
 
 /-! ### all-or-nothing writes of `stepColl` -/
 
@@ -111,9 +137,10 @@ theorem near_delete_many (cfg : Cfg) (now : Int) (c : Coll) (f : Val)
       exact Near.refl _ _
 
 theorem failed_atomic_write_untouched (cfg : Cfg) (now : Int) (c : Coll) (op : Val)
-    (ha : atomicWrite op = true) (he : (stepColl cfg now c op).2.isErr = true) :
+    (hr : c.Recorded) (ha : atomicWrite op = true)
+    (he : (stepColl cfg now c op).2.isErr = true) :
     Untouched now c (stepColl cfg now c op).1 := by
-  rw [← near_iff_untouched]
+  apply near_untouched now c _ hr
   unfold atomicWrite at ha
   split at ha
   · rename_i k rest
@@ -187,10 +214,18 @@ theorem update_many_document_granularity (cfg : Cfg) (now : Int) (c : Coll) (f u
 /-! ### bulk_write -/
 
 theorem bulk_failed_request_noop (cfg : Cfg) (now : Int) (c c' : Coll) (idx : Nat) (req : Val)
-    (o : BulkOut) (ha : atomicRequest req = true)
+    (o : BulkOut) (hr : c.Recorded) (ha : atomicRequest req = true)
     (h : bulkOne cfg now c idx req = (c', o)) (ho : requestFailed o = true) :
     Untouched now c c' :=
-  (near_iff_untouched _ _ _).1 (bulkOne_fail_near cfg now c c' idx req o ha h ho)
+  near_untouched _ _ _ hr (bulkOne_fail_near cfg now c c' idx req o ha h ho)
+
+/-- the one-at-a-time run of a batch keeps existence recorded -/
+theorem recorded_seqOps (cfg : Cfg) (now : Int) (ops : List Val) (c : Coll) (hr : c.Recorded) :
+    (seqOps cfg now ops c).Recorded := by
+  induction ops generalizing c with
+  | nil => exact hr
+  | cons op ops ih =>
+    exact ih _ (MongoModel.Proofs.Recorded.recorded_stepColl cfg now c op hr)
 
 theorem bulk_failed_update_many (cfg : Cfg) (now : Int) (c c' : Coll) (idx : Nat) (f u up : Val)
     (o : BulkOut) (hn : c.ttlIndexes = []) (hk : KeysDistinct c) (hg : GoodKeys c)
@@ -229,6 +264,7 @@ theorem seqAllOk_iff_no_failures (cfg : Cfg) (now : Int) (ops : List Val) (c : C
     cases (stepColl cfg now c op).2.isErr <;> simp
 
 theorem bulk_ordered_stops_at_first_failure (cfg : Cfg) (now : Int) (c : Coll) (reqs : List Val)
+    (hr : c.Recorded)
     (hp : reqs.all plainRequest = true) (hv : bulkPrecheck reqs = .ok ()) (hne : reqs ≠ []) :
     ((bulkWrite cfg now c reqs true).2.isErr = false →
       seqAllOk cfg now (reqs.map asSingle) c = true ∧
@@ -254,7 +290,7 @@ theorem bulk_ordered_stops_at_first_failure (cfg : Cfg) (now : Int) (c : Coll) (
     · intro _
       refine ⟨pre, r, post, h1, h2, h3, h4, ?_, ?_⟩
       · intro ha
-        exact bulk_failed_request_noop cfg now _ _ _ r o ha h5 h6
+        exact bulk_failed_request_noop cfg now _ _ _ r o (recorded_seqOps cfg now _ c hr) ha h5 h6
       · intro details hd
         rcases h7 with ⟨e, h7⟩ | ⟨t', h7, h8⟩
         · rw [h7] at hd; cases hd
